@@ -278,7 +278,10 @@ def phot_stream(rep, r, n, lines, exps, metas):
             on_masked_core = mask is not None and mask[max(0, int(round(y)) - 1):int(round(y)) + 2, max(0, int(round(x)) - 1):int(round(x)) + 2].any()
             if on_masked_core:
                 continue
-            if abs(res['x_fit'][j] - x) > 2e-3 or abs(res['y_fit'][j] - y) > 2e-3 or abs(res['flux_fit'][j] - f) > 2e-3 * f:
+            # (sources of DIFFERENT groups 6 px apart still overlap in their wings and are not fitted together: a bias of up to 2.2e-3 px was
+            # observed - thorough tier, seed 15; the seeded changes of this property move results by 1e-2 .. 1e2)
+            tol_ = 3e-3 if int(res['group_size'][j]) <= 3 else 5e-3
+            if abs(res['x_fit'][j] - x) > tol_ or abs(res['y_fit'][j] - y) > tol_ or abs(res['flux_fit'][j] - f) > tol_ * f:
                 bad = (j, (x, y, f), (float(res['x_fit'][j]), float(res['y_fit'][j]), float(res['flux_fit'][j])))
                 break
         if bad:
